@@ -603,6 +603,10 @@ func (i *Snapshot) readFromVersion1(br *bufio.Reader) (int64, error) {
 		return bytesRead, fmt.Errorf("error peeking snapshot number of segments %d: %w", i.epoch, err)
 	}
 	numSegments, n := binary.Uvarint(peek)
+	if n == 0 {
+		// the file ends inside (or before) the number
+		return bytesRead, fmt.Errorf("error reading snapshot number of segments %d: %w", i.epoch, io.ErrUnexpectedEOF)
+	}
 	sz, err := br.Discard(n)
 	if err != nil {
 		return bytesRead, fmt.Errorf("error reading snapshot number of segments %d: %w", i.epoch, err)
@@ -647,6 +651,9 @@ func (i *Snapshot) readSegmentSnapshot(br *bufio.Reader) (bytesRead int64, ss *s
 		return bytesRead, nil, fmt.Errorf("error reading snapshot %d: %w", i.epoch, err)
 	}
 	segmentID, n := binary.Uvarint(peekSegmentID)
+	if n == 0 {
+		return bytesRead, nil, fmt.Errorf("error reading snapshot %d: %w", i.epoch, io.ErrUnexpectedEOF)
+	}
 	sz, err = br.Discard(n)
 	if err != nil {
 		return bytesRead, nil, fmt.Errorf("error reading snapshot %d: %w", i.epoch, err)
@@ -665,6 +672,9 @@ func (i *Snapshot) readSegmentSnapshot(br *bufio.Reader) (bytesRead int64, ss *s
 		return bytesRead, nil, fmt.Errorf("xerror reading snapshot %d: %w", i.epoch, err)
 	}
 	delLen, n := binary.Uvarint(peek)
+	if n == 0 {
+		return bytesRead, nil, fmt.Errorf("error reading snapshot %d: %w", i.epoch, io.ErrUnexpectedEOF)
+	}
 	sz, err = br.Discard(n)
 	if err != nil {
 		return bytesRead, nil, fmt.Errorf("error reading snapshot %d: %w", i.epoch, err)
@@ -699,6 +709,9 @@ func readVarLenString(r *bufio.Reader) (n int, str string, err error) {
 		return n, "", err
 	}
 	strLen, uVarRead := binary.Uvarint(peek)
+	if uVarRead == 0 {
+		return n, "", io.ErrUnexpectedEOF
+	}
 	sz, err := r.Discard(uVarRead)
 	if err != nil {
 		return n, "", err
